@@ -90,7 +90,12 @@ def cli_seed_case(ctx, case):
     base = trees.fresh_dir(os.path.join(kernel.scratch('_c16'), 'cli'))
     src = os.path.join(base, 'p.asm')
     names = 'zeta alpha mid beta omega gamma y x w q'.split()
-    open(src, 'w').write(''.join('%s:\n%s_K = %d\naddi x8, x8, %d\n' % (n, n, i, i) for i, n in enumerate(names)) + 'j alpha\n')
+    open(src, 'w').write('include board.asm\n' + ''.join('%s:\n%s_K = %d\naddi x8, x8, %d\n' % (n, n, i, i) for i, n in enumerate(names)) + 'j alpha\n')
+    incs = []
+    for i, d in enumerate(('zeta_dir', 'alpha_dir', 'mid_dir', 'beta_dir')):       # the same file name in several -i directories: command-line order decides
+        os.makedirs(os.path.join(base, d))
+        open(os.path.join(base, d, 'board.asm'), 'w').write('BOARD = %d\ndw BOARD\n' % (i + 1))
+        incs += ['-i', d]
     ref = None
     for hs in case['seeds']:
         env = dict(os.environ, PYTHONPATH=kernel.REPO)
@@ -101,7 +106,7 @@ def cli_seed_case(ctx, case):
             if os.path.exists(os.path.join(base, f)):
                 os.remove(os.path.join(base, f))
         p = subprocess.run(['/venv/bin/python', '-c', 'import sys; sys.path.insert(0, %r); from bronzebeard.asm import cli_main; cli_main()' % kernel.REPO,
-                            'p.asm', '-c', '-o', 'o.bin', '-l', 'l.txt', '--hex-offset', '0x08000000'] + (['-v'] if case.get('verbose') else []),
+                            'p.asm', '-c', '-o', 'o.bin', '-l', 'l.txt', '--hex-offset', '0x08000000'] + incs + (['-v'] if case.get('verbose') else []),
                            cwd=base, capture_output=True, text=True, env=env)
         ctx.count('seed_runs')
         ctx.count('calls')
@@ -111,6 +116,9 @@ def cli_seed_case(ctx, case):
             ref = (hs, got)
             if p.returncode != 0:
                 raise RuntimeError('cli reference run failed: ' + p.stderr)
+            if bytes.fromhex(got['files']['o.bin'])[:4] != b'\x01\0\0\0':
+                ctx.violation('%s:cli:include-order' % PROP, 'with -i zeta_dir -i alpha_dir -i mid_dir -i beta_dir the first directory must win: got BOARD word %s' % got['files']['o.bin'][:8],
+                              'cli_seed_case', case, expected='01000000', observed=got['files']['o.bin'][:8])
         elif got != ref[1]:
             diff = [k for k in ('status', 'stdout') if got[k] != ref[1][k]] + [f for f in got['files'] if got['files'][f] != ref[1]['files'][f]]
             ctx.violation('%s:hashseed:cli:%s' % (PROP, '+'.join(diff)), 'command line under PYTHONHASHSEED=%s differs from PYTHONHASHSEED=%s in %s' % (hs, ref[0], diff),
